@@ -42,6 +42,15 @@ def plan(tier, seed):
                       "force": force, "vf": ["lcm", "ref", "random"][i % 3],
                       "agents": int([2, 3, 16, 4, 5, 16, 7, 16][i % 8]) if tier == "quick" else int([2, 3, 64, 5, 128, 7, 256, 11][i % 8]),
                       "env": {"VERIF_X64": "1"}})
+    # a very large panel with large continuous choice grids (tens of millions of evaluated
+    # state-choice rows per period: any batching of the row dimension is exercised)
+    for i in range(2 if tier == "quick" else 6):
+        cases.append({"index": 3 * i + 2, "seed": [seed, 24, i], "cfg": "quick",
+                      "cfg_over": {"max_T": 2, "min_T": 2, "n_cC": 2, "min_cont_choice_pts": 24, "max_cont_choice_pts": 30, "max_states": 2, "max_choices": 2,
+                                   "max_cells": 40000, "n_cS": 1},
+                      "force": {"poison": False, "two_cont_choices": True, "filters": False, "mixed_discrete": False, "stochastic": False, "two_stochastic": False,
+                                "two_cont_states": False, "excluded_states": False, "period_filter": False},
+                      "vf": "ref", "agents": 32000, "big_panel": True, "env": {"VERIF_X64": "1"}})
     # single precision (x64 disabled is JAX's default for users who do not opt in)
     for i in range(8 if tier == "quick" else 100):
         cases.append({"index": 5 * i + 1, "seed": [seed, 23, i], "cfg": "quick", "cfg_over": {"max_T": 3},
